@@ -329,6 +329,9 @@ def c05_3(ck, prog):
         else:
             r.violation('bus_dispatch:error-reply(connection, message)', fn.name, fn.file, c['line'],
                         'error reply is addressed to %s about %s' % (estr(c['args'][1]), estr(c['args'][3])))
+    # exactly one error: a refused call must not also have opened a reply slot (-> later NoReply)
+    from rules.C09 import slot_opened_last
+    slot_opened_last(prog, r)
     ne = prog.fn('dbus_message_new_error', 'dbus/dbus-message.c')
     okr = False
     for b, i, c in ne.calls('dbus_message_set_reply_serial'):
